@@ -1388,6 +1388,8 @@ Section Refine.
     exists g' n' t,
       run_op' (g, n) rst (OPush d c) = ((g', n'), RSUnsupported, t, ROk) /\
       minv g' /\
+      index_state g' tag (Some (H (gen_index upd), upd)) /\
+      (d_dg d <> H (gen_index upd) -> lookup (d_dg d) (g_mans g') = Some (d_mt d, c)) /\
       exists n'' t', run_op' (g', n') RSUnsupported (OPreds sj)
                      = ((g', n''), RSUnsupported, t', RDescs (clean_refs [] upd)).
   Proof.
@@ -1414,20 +1416,33 @@ Section Refine.
     assert (Nn : is_nil upd = false) by (unfold upd; destruct (clean_refs [] l); reflexivity).
     rewrite Nn in Ist. cbn [andb] in Ist.
     destruct (tag_schema_read g' n' sj _ Hi' Vs ER Vt Hp Ist) as (n'' & t' & R).
-    exists g', n', (t1 ++ t2). split; [|split].
+    exists g', n', (t1 ++ t2). split; [|split; [|split; [exact Ist|split]]].
     - cbn [run_op]. rewrite Him. unfold man_push. rewrite Hix.
       assert (Ns : rs_supported rst = false) by (destruct rst; cbn; congruence).
       rewrite Ns. cbn [negb andb].
       assert (El : (limit <? d_sz d) = false) by (apply N.ltb_ge; rewrite <- Hs; exact Hl).
       rewrite El, Hs, N.eqb_refl, Hh, str_eqb_refl. cbn [negb orb]. rewrite E1, Ns, Sj, Ers, E2. reflexivity.
     - exact Hi'.
+    - intro Hne. destruct St2 as (_ & _ & K). rewrite K; [rewrite Gm; apply lookup_insert_eq|exact Hne|].
+      intros od l0 Y. intro X. eapply Hod; eauto.
     - exists n'', t'. cbn [run_op]. unfold predecessors. rewrite R. reflexivity.
+  Qed.
+
+  (* pingReferrers against a registry without the API *)
+  Lemma ping_noapi g n rst :
+    p_referrers p = false -> rst <> RSSupported ->
+    exists n' t, ping_referrers main S ex0 (g, n) rst = ((g, n'), RSUnsupported, t, Some false).
+  Proof.
+    intros Pr Hrs. destruct rst; [|congruence|cbn [ping_referrers]; eauto].
+    unfold ping_referrers, cexch, handle, req. proj. rewrite str_eqb_refl. proj. rewrite Pr. simp.
+    assert (str_eqb [] name_unknown = false) as -> by (vm_compute; reflexivity).
+    cbn [rs_set]. eauto.
   Qed.
 
   (* ... and Delete of a stored manifest with a subject: the referrer leaves the index first, then
      the manifest is deleted; Predecessors no longer lists it *)
-  Theorem delete_subject_then_predecessors g n d c sj od l :
-    minv g -> p_referrers p = false ->
+  Theorem delete_subject_then_predecessors g n rst d c sj od l :
+    minv g -> p_referrers p = false -> rst <> RSSupported ->
     is_manifest user_mts d = true -> indexable_del (d_mt d) = true ->
     lookup (d_dg d) (g_mans g) = Some (d_mt d, c) -> len c = d_sz d -> valid_digest (d_dg d) = true ->
     subject_of c = Some (Some sj) -> valid_digest (d_dg sj) = true ->
@@ -1442,20 +1457,21 @@ Section Refine.
     H (gen_index upd) <> d_dg d ->
     (skip_gc = true \/ od <> H (gen_index upd)) ->
     exists g' n' t,
-      run_op' (g, n) RSUnsupported (ODelete d) = ((g', n'), RSUnsupported, t, ROk) /\
+      run_op' (g, n) rst (ODelete d) = ((g', n'), RSUnsupported, t, ROk) /\
       minv g' /\ lookup (d_dg d) (g_mans g') = None /\
       exists n'' t', run_op' (g', n') RSUnsupported (OPreds sj)
                      = ((g', n''), RSUnsupported, t', RDescs (clean_refs [] upd)).
   Proof.
-    intros Hi Pr Him Hix L Hs V Sj Vs tag ER Vt Hp Hst Hu Hod upd Hin Hlim Hj Hcol.
+    intros Hi Pr Hrs Him Hix L Hs V Sj Vs tag ER Vt Hp Hst Hu Hod upd Hin Hlim Hj Hcol.
     destruct (Hi _ _ _ L) as (Hh & Pm & Hl).
     destruct (man_fetch_hit_m g n d c Hi L Hs V) as (t1 & E1).
+    destruct (ping_noapi g (n + 1) rst Pr Hrs) as (n2 & t2 & E2).
     assert (Hr1 : rst_ok RSUnsupported) by (right; exact Pr).
     assert (Hch : apply_change l (Some (RRemove d)) = Some upd).
     { unfold apply_change. now rewrite Hin. }
     assert (Hcol' : skip_gc = true \/ forall od' l0, Some (od, l) = Some (od', l0) -> od' <> H (gen_index upd)).
     { destruct Hcol as [X|X]; [now left|right]. intros od' l' Y. injection Y as <- <-. exact X. }
-    destruct (tag_schema_update_m g (n + 1) RSUnsupported sj (Some (od, l)) (RRemove d) upd Hi Hr1 Vs ER Vt Hp Hst Hu Hch Hlim Hcol')
+    destruct (tag_schema_update_m g n2 RSUnsupported sj (Some (od, l)) (RRemove d) upd Hi Hr1 Vs ER Vt Hp Hst Hu Hch Hlim Hcol')
       as (g3 & n3 & t3 & E3 & St3 & Ist).
     assert (Hi3 : minv g3) by exact (ts_step_minv _ _ _ _ Hi Hlim St3).
     destruct St3 as (_ & _ & K3).
@@ -1475,11 +1491,13 @@ Section Refine.
         + apply lookup_filter_some; [exact Lt|]. cbn [snd]. now rewrite (str_eqb_neq _ _ Hj).
         + rewrite Gm4, lookup_remove_neq by exact Hj. exact Lm. }
     destruct (tag_schema_read g4 (n3 + 1) sj _ Hi4 Vs ER Vt Hp Ist4) as (n'' & t' & R).
-    exists g4, (n3 + 1), (t1 ++ [] ++ t3 ++ t4). split; [|split; [exact Hi4|split]].
-    - cbn [run_op]. rewrite Him. unfold man_delete. rewrite Hix. cbn [rs_supported negb andb].
+    exists g4, (n3 + 1), (t1 ++ t2 ++ t3 ++ t4). split; [|split; [exact Hi4|split]].
+    - cbn [run_op]. rewrite Him. unfold man_delete. rewrite Hix.
+      assert (Ns : rs_supported rst = false) by (destruct rst; cbn; congruence).
+      rewrite Ns. cbn [negb andb].
       assert (El : (limit <? d_sz d) = false) by (apply N.ltb_ge; rewrite <- Hs; exact Hl).
       rewrite El, E1, Hs, N.eqb_refl, <- Hh, str_eqb_refl. cbn [negb orb]. rewrite Sj.
-      cbn [ping_referrers]. rewrite E3, E4. reflexivity.
+      rewrite E2, E3, E4. reflexivity.
     - rewrite Gm4. apply lookup_remove_eq.
     - exists n'', t'. cbn [run_op]. unfold predecessors. rewrite R. f_equal. f_equal.
       destruct (is_nil upd) eqn:En; [|reflexivity].
